@@ -61,22 +61,22 @@ def harnesses(tier):
                           twin=mk_scenario([FORMS_A[:1], FORMS_B[:1]], 2, 12, 1, planted='oracle'),
                           bounds={'sources': 2, 'forms': '6 x 8', 'publishes_per_source': 2, 'poll_decisions': 12, 'not_yet_answers': 1,
                                   'ids': 'unbounded Int'}, functions=fn, stubs=stubs, assumptions=assume, budget_s=1800))
-        hs.append(Harness('c01.recv_stream.2src.3pub', mk_scenario([FORMS_A[:1], FORMS_B[:2]], 3, 12, 0, sym_state=True),
-                          bounds={'sources': 2, 'forms': '1 x 2', 'publishes_per_source': 3, 'poll_decisions': 12, 'not_yet_answers': 0,
+        hs.append(Harness('c01.recv_stream.2src.3pub', mk_scenario([FORMS_A[:1], FORMS_B[:2]], 3, 14, 0, sym_state=True),
+                          bounds={'sources': 2, 'forms': '1 x 2', 'publishes_per_source': 3, 'poll_decisions': 14, 'not_yet_answers': 0,
                                   'initial_state': 'symbolic >= 0'}, functions=fn, stubs=stubs, assumptions=assume, budget_s=1800))
-        hs.append(Harness('c01.recv_stream.drop_restart', mk_scenario([FORMS_A[:1], FORMS_B[1:3]], 2, 12, 0, drops=1, restart=True),
-                          bounds={'sources': 2, 'forms': '1 x 2', 'publishes_per_source': 2, 'poll_decisions': 12, 'lost_parts': '<=1',
+        hs.append(Harness('c01.recv_stream.drop_restart', mk_scenario([FORMS_A[:2], FORMS_B[1:3]], 2, 12, 0, drops=1, restart=True),
+                          bounds={'sources': 2, 'forms': '2 x 2', 'publishes_per_source': 2, 'poll_decisions': 12, 'lost_parts': '<=1',
                                   'publisher_restarts': '<=1 per source'}, functions=fn, stubs=stubs, assumptions=assume, budget_s=1800))
-        hs.append(Harness('c01.recv_stream.3src', mk_scenario([FORMS_A[:1], FORMS_B[:2], FORMS_C], 2, 12, 0),
-                          bounds={'sources': 3, 'forms': '1 x 2 x 2', 'publishes_per_source': 2, 'poll_decisions': 12},
+        hs.append(Harness('c01.recv_stream.3src', mk_scenario([FORMS_A[:1], FORMS_B[1:2], FORMS_C], 2, 12, 0),
+                          bounds={'sources': 3, 'forms': '1 x 1 x 2', 'publishes_per_source': 2, 'poll_decisions': 12},
                           functions=fn, stubs=stubs, assumptions=assume, budget_s=1800))
     from props import s_level as SL
     if tier == 'quick':
         hs.append(SL.H('c01.S.tee_rejoin', SL.c01_rejoin(3, {'pB': (0, 400)}, {'pC': 100}), twin=SL.c01_rejoin(2, {}, {'pB': 0, 'pC': 0}, planted=True),
                        bounds={'topology': 'tee-rejoin, 2 branches, branch C skips a symbolic subset of ids', 'frames': 3, 'free timing (ms)': {'pB': [0, 400]}, 'fixed': {'pC': 100, 'd': 10}}))
     else:
-        hs.append(SL.H('c01.S.tee_rejoin', SL.c01_rejoin(3, {'pB': (0, 400), 'pC': (0, 120)}), twin=SL.c01_rejoin(2, {}, {'pB': 0, 'pC': 0}, planted=True),
-                       bounds={'topology': 'tee-rejoin, 2 branches, branch C skips a symbolic subset of ids', 'frames': 3, 'free timing (ms)': {'pB': [0, 400], 'pC': [0, 120]}}, budget=3000))
+        hs.append(SL.H('c01.S.tee_rejoin', SL.c01_rejoin(3, {'pB': (0, 200), 'pC': (0, 80)}), twin=SL.c01_rejoin(2, {}, {'pB': 0, 'pC': 0}, planted=True),
+                       bounds={'topology': 'tee-rejoin, 2 branches, branch C skips a symbolic subset of ids', 'frames': 3, 'free timing (ms)': {'pB': [0, 200], 'pC': [0, 80]}}, budget=3000))
         hs.append(SL.H('c01.S.tee_rejoin3', SL.c01_rejoin(3, {'pB': (0, 400)}, {'pC': 100, 'pE': 250}, branches=3),
                        bounds={'topology': 'tee-rejoin, 3 branches', 'frames': 3, 'free timing (ms)': {'pB': [0, 400]}, 'fixed': {'pC': 100, 'pE': 250}}, budget=3000))
         hs.append(SL.H('c01.S.tee_rejoin.delay', SL.c01_rejoin(3, {'d': (1, 99)}, {'pB': 30, 'pC': 170}),
